@@ -58,3 +58,8 @@ claim("C15",
       "Every history (ops with deletions, causal syncs, forced gc at every point) over txt/rtx/arr/map/nest/xml is executed in lock-step on an all-gc-off reference world and on one world per other gc assignment of the R replicas; after every step corresponding replicas must show equal content (covers gc<->non-gc sync in both directions and forced gc), and a document rebuilt from each gc'd replica's full state (v1/v2) must equal it. A second exploration runs a document with an UndoManager against a gc-off twin over {op, forced gc, undo, redo}: undo/redo after collection must restore the same content.",
       "reference world never collects; state-matched on the internal dumps of all worlds",
       "DESIGN.md 4/C15")
+claim("C12",
+      "bounded-exhaustive enumeration of action sequences on a real document with an UndoManager, judged by a snapshot-stack model and locality monitors",
+      "All sequences of <= L actions (quick L=4..7, thorough L=5..9) from {tracked edit, clock tick, untracked-origin edit, tracked edit on an unscoped type, remote edit, undo, redo} over txt/rtx/arr/map/nest/xml are executed with a controlled clock and state-matched; an undo/redo that pops k capture steps must reproduce the snapshot k boundaries back when no foreign origin edited in between, a fresh tracked edit clears the redo stack, foreign elements stay visible in order, unscoped types are untouched, and a replica fed only by update events converges after every step.",
+      "capture grouping via controlled clock (timeout 10, tick 100); foreign elements identified by unique tags; nested/xml families exempt from the flat foreign-order check",
+      "DESIGN.md 4/C12")
